@@ -662,7 +662,7 @@ def regSt (tpl : Bytes) (nodes : List Node) (st : St) : St :=
 /-- state the `extends` node hands to the parent's root -/
 def extSt (E : Env) (st : St) : St :=
   { st with ctx := { freshCtx st.ctx.vars (E.F.propExtends && st.ctx.sandboxed) st.ctx.inside with
-                      blockDefs := st.ctx.blockDefs } }
+                      blockDefs := st.ctx.blockDefs, parents := st.ctx.parents } }
 
 theorem renderRoot_extends {E : Env} {go : Go} {tpl : Bytes} {nodes : List Node} {e : Expr} (st : St)
     (ht : E.tpl? tpl = some nodes) (he : lastExtends nodes = some e) :
@@ -699,6 +699,8 @@ theorem chain_walk (E : Env) (vars : List (Bytes × Val)) :
     rw [extends_eq h1 h2 hrel htq]
     simp only [run]
     rw [renderRoot_base _ htq hlq]
+    have hp' : (regSt p.1 p.2 st).ctx.parents = [] := hp
+    simp only [extSt, hp']
     rfl
   | r :: rest, p, q, st, f, hc, hv, hm, hp => by
     obtain ⟨htp, ⟨e, hle, hlink⟩, hrel, hc'⟩ := hc
@@ -708,7 +710,7 @@ theorem chain_walk (E : Env) (vars : List (Bytes × Val)) :
     rw [renderRoot_extends st htp hle]
     obtain ⟨v, fl, h1, h2⟩ := hlink (regSt p.1 p.2 st) hv hm hp
     rw [extends_eq h1 h2 hrel htq]
-    have ih := chain_walk E vars rest q r (extSt E (regSt p.1 p.2 st)) f hc' hv rfl rfl
+    have ih := chain_walk E vars rest q r (extSt E (regSt p.1 p.2 st)) f hc' hv rfl hp
     rw [ih, restoreCtx_restoreCtx]
     have : ∀ x y : Bool, (x && (x && y)) = (x && y) := by decide
     simp only [chainCtx, regSt, extSt, freshCtx, regAll, List.foldl_cons, lastTpl, this]
